@@ -230,8 +230,17 @@ impl InferShapes for Where {
                     }
                 })
                 .collect();
-            if let Some(vals) = vals {
-                return Ok([SymTensor::from_vec(vals)].into());
+            if let Some(mut vals) = vals {
+                // If all inputs are scalars, so is the output.
+                let all_scalar = cond.as_scalar().is_some()
+                    && x.as_scalar().is_some()
+                    && y.as_scalar().is_some();
+                let value = if all_scalar {
+                    SymTensor::from_scalar(vals.remove(0))
+                } else {
+                    SymTensor::from_vec(vals)
+                };
+                return Ok([value].into());
             }
         }
 
